@@ -30,6 +30,7 @@ Every await of the harness that could block is guarded by a real-time timeout; a
 from __future__ import annotations
 
 import asyncio
+import re
 import heapq
 import json
 import os
@@ -54,6 +55,7 @@ from aiomysensors.transport.tcp import TCPTransport  # noqa: E402
 
 DRIVER = "DriverLifecycle.lean"
 GUARD = 3.0          # real seconds: every await of the harness that may block
+SLACK = 1.0          # factor on the harness's real-time settle sleeps (raised in confirmation re-runs)
 FIFTEEN_MINUTES = 900
 
 
@@ -953,7 +955,7 @@ async def run_real(path: str, kind: str, fail_connect: bool, wait_first_save: bo
                         now = _dumped(canon(gateway.nodes))
                         obs["loaded_ok"] = all(now.get(k) == v for k, v in _dumped(file_before_retry).items())
                     if wait_first_save:
-                        await asyncio.sleep(0.03)
+                        await asyncio.sleep(0.03 * SLACK)
                     gateway.nodes[42 + session] = Node(42 + session, 17, "2.0")
                     reg_at_exit = canon(gateway.nodes)
                     if body_raises and session == sessions - 1:
@@ -967,7 +969,7 @@ async def run_real(path: str, kind: str, fail_connect: bool, wait_first_save: bo
                 await asyncio.wait_for(context(-1), GUARD)
             except BaseException as e:  # noqa: BLE001
                 first = e
-            await asyncio.sleep(0.02)
+            await asyncio.sleep(0.02 * SLACK)
             left = [t for t in asyncio.all_tasks() - before if t is not asyncio.current_task() and not t.done()]
             left_names = sorted({getattr(t.get_coro(), "__qualname__", "?") for t in left})
             obs["failed_entry"] = {"outcome": classify(first), "entered": obs["entered"],
@@ -994,7 +996,7 @@ async def run_real(path: str, kind: str, fail_connect: bool, wait_first_save: bo
                 await asyncio.wait_for(context(session), GUARD)
         except BaseException as e:  # noqa: BLE001
             exc = e
-        await asyncio.sleep(0.02)      # let executor callbacks and closed sockets settle
+        await asyncio.sleep(0.02 * SLACK)      # let executor callbacks and closed sockets settle
         leftovers = [t for t in asyncio.all_tasks() - before if t is not asyncio.current_task() and not t.done()]
         names = sorted({getattr(t.get_coro(), "__qualname__", "?") for t in leftovers})
         names = [n for n in names if "on_client" not in n and "StreamReaderProtocol" not in n]
@@ -1134,7 +1136,7 @@ class Wire:
             else:
                 self.peers[-1].sendall(data)
             if had is None or not await _until(lambda: (self._buffered() or 0) >= had + len(data)):
-                await asyncio.sleep(0.03)
+                await asyncio.sleep(0.03 * SLACK)
             return
         for it in items:
             if it[0] == "partial":
@@ -1326,7 +1328,7 @@ async def run_unread(path: str, kind: str, before: int, read: int, late: int, ex
                         now = _dumped(canon(gateway.nodes))
                         obs["loaded_ok"] = all(now.get(k) == v for k, v in _dumped(file0).items())
                         obs["stage"] = "body"
-                        await asyncio.sleep(0.03)          # the saver's first save is done, it sleeps
+                        await asyncio.sleep(0.03 * SLACK)          # the saver's first save is done, it sleeps
                         await traffic.in_body(gateway)
                         gateway.nodes[42 + session] = Node(42 + session, 17, "2.0", sketch_name=f"added in the body of session {session}")
                         reg_at_exit = canon(gateway.nodes)
@@ -1367,7 +1369,7 @@ async def run_unread(path: str, kind: str, before: int, read: int, late: int, ex
                     await asyncio.wait_for(context(), GUARD)
             except BaseException as e:  # noqa: BLE001
                 exc = e
-            await asyncio.sleep(0.02)      # let executor callbacks and closed sockets settle
+            await asyncio.sleep(0.02 * SLACK)      # let executor callbacks and closed sockets settle
             outcome = "bodyErr" if exc is not None and ended_with and exc is ended_with[0] else classify(exc)
             closed = None
             if obs["entered"] and outcome != "hang":
@@ -1532,6 +1534,36 @@ def run_slow_connect(path: str, connect_takes: int, connect_fails: bool, body_ta
 
 
 # ---- the run ---------------------------------------------------------------------------------
+
+
+
+def confirmed(corr: Corr, name: str, group) -> None:
+    """Run a wall-clock-dependent group (real thread pool, real sockets, real-time hang guards).  Such a run can be
+    disturbed by the machine (a starved executor thread makes a 30 ms settle too short or a 3 s guard expire), so a
+    violation it reports is kept only if it shows again when the whole group is run once more with relaxed timing
+    (guards x2, settle sleeps x5).  A defect of the library reproduces; a disturbance does not (counted in the evidence)."""
+    global GUARD, SLACK
+    n0 = len(corr.violations)
+    asyncio.run(group(corr))
+    new = corr.violations[n0:]
+    if not new:
+        return
+    key = lambda v: re.sub(r"\d+", "#", v["what"])  # noqa: E731
+    scratch = Corr(corr.prop, corr.rule)
+    old = (GUARD, SLACK)
+    GUARD, SLACK = GUARD * 2, SLACK * 5
+    try:
+        asyncio.run(group(scratch))
+    finally:
+        GUARD, SLACK = old
+    seen = {key(v) for v in scratch.violations}
+    keep = [v for v in new if key(v) in seen]
+    del corr.violations[n0:]
+    corr.violations.extend(keep)
+    if len(keep) < len(new):
+        corr.count("unconfirmed-wall-clock-observations:" + name, len(new) - len(keep))
+        corr.notes.append(f"{name}: {len(new) - len(keep)} observation(s) of a wall-clock-dependent run did not show again when the "
+                          "group was re-run with relaxed timing; not reported (first: " + new[0]["what"][:160] + ")")
 
 
 def run_c16(ctx) -> Corr:
@@ -1706,7 +1738,7 @@ def run_c16(ctx) -> Corr:
             pending.append(({"scenario": "cadence", "T": T}, {"cadence_starts": row["starts"], "T": T}))
 
     # real aiofiles + built-in transport kinds
-    async def real():
+    async def real(corr):
         for kind in ("flaky", "tcp", "serial", "mqtt-client", "mqtt-abstract"):
             for fail_connect, wait_first, body_raises in ((False, True, False), (False, False, False), (True, False, False), (False, True, True)):
                 case = {"transport": kind, "connect_fails": fail_connect, "waited_for_first_save": wait_first,
@@ -1783,10 +1815,10 @@ def run_c16(ctx) -> Corr:
                           f"{obs2['outcome']} ({obs2['error']}), final save done: {obs2['final_save_done']}, "
                           f"file is registry at exit: {obs2['file_is_registry_at_exit']}, saver saves: {obs2['saver_saves']}")
 
-    asyncio.run(real())
+    confirmed(corr, "real-transports", real)
 
     # messages that were received but not read when the context is left, every built-in transport kind
-    async def unread():
+    async def unread(corr):
         hangs = 0
         for sc in unread_scenarios(rng, ctx.tier):
             if hangs >= 2:
@@ -1840,7 +1872,7 @@ def run_c16(ctx) -> Corr:
                     corr.violate(what + ": the context was left but the far end still sees the connection open (the transport was "
                                  "not disconnected)", {**scase, "observed": obs})
 
-    asyncio.run(unread())
+    confirmed(corr, "unread-messages", unread)
     corr.notes.append("messages received but not read at exit (real transports, real aiofiles): the Lean lifecycle model has no "
                       "transport traffic and these runs do not control the saver's position, so they are judged by the oracle alone; "
                       "the gated variant (in-memory MQTTTransport subclass, `gated-mqtt-unread`) places the saver and is compared "
